@@ -144,6 +144,9 @@ package webserver
 //@   assert at call GetPermission this-group: arg_groupname == groupname && arg_creds.Token == creds.Token && arg_creds.Password == creds.Password && arg_creds.Username == creds.Username
 //@        && arg_desc == first(callresult("GetDescription", 1))
 //@   -- C17 (the one exception): the current password of the NAMED user of THIS group, and only when a user is named
+//@   -- (presented: the request carries credentials, and they name that user - a request without credentials used to pass when the
+//@   --  stored password was of the wildcard type, which matches the empty password too: repaired)
+//@   assert at call Match presented: creds.Username != nil && *creds.Username == user
 //@   assert at call Match explicit: user != "" && arg_pw == creds.Password && has(first(callresult("GetDescription", 1)).Users, user)
 //@        && arg_p.Type == first(callresult("GetDescription", 1)).Users[user].Password.Type
 //@        && arg_p.Key == first(callresult("GetDescription", 1)).Users[user].Password.Key
